@@ -69,6 +69,9 @@ package keeper
 //@       && Order[orderId].Amount.Amount > 0
 //@   ensures [C05.refund.frame] forall a addr, d string :: a != moduleAddr("order") && a != addr(PaymentAddress[(Order[orderId].PaymentDid != "" ? Order[orderId].PaymentDid : Order[orderId].Owner)].Address) ==> bal(a, d) == old(bal(a, d))
 //@   ensures [C05.refund.err] err != nil ==> forall a addr, d string :: bal(a, d) == old(bal(a, d))
+//@   ensures [C12.refund.succeeds] has(Order, orderId) && has(PaymentAddress, (Order[orderId].PaymentDid != "" ? Order[orderId].PaymentDid : Order[orderId].Owner))
+//@       && Order[orderId].Amount.Amount > 0 && old(bal(moduleAddr("order"), Order[orderId].Amount.Denom)) >= Order[orderId].Amount.Amount
+//@       && !blockedAddr(addr(PaymentAddress[(Order[orderId].PaymentDid != "" ? Order[orderId].PaymentDid : Order[orderId].Owner)].Address)) ==> err == nil
 
 // settlement of a completed order: the refund goes to the owner's payment address, or to the owner's DID balance
 //@ func (Keeper) TerminateOrder(ctx, orderId, refundCoin) (err)
